@@ -8,4 +8,9 @@ PROPS = {
         "rule": "roundtrip of sampled ids (3/4 in the 10^7 id space, 1/4 any u32) + all border ids; parse of structured strings (valid renderings with other 3-byte prefixes, overflow region, signs, leading zeros) and random strings over an alphabet with 1-4 byte chars at every offset; distinct = distinct op lists; every case non-trivial",
         "assumptions": ["Rust u32::from_str grammar: optional '+', decimal digits, overflow is an error", "Display {:07} pads with zeros to at least 7 digits"],
     },
+    "C01": {
+        "rule": "DAGs by hidden topological order (shapes: random multi-parent, chain, tree, diamond ladder, chain+shortcut, multi-root/disconnected), ids by an independent random injection (0, 9_999_999, small, large), shuffled new_term/add_parent order, duplicate new_term calls, repeated add_parent; construction path Builder or harness-encoded binary v1/v2/v3; observables: full dump (parents, children, ancestors per term) + child_of/parent_of for all ordered pairs + BFS-closure oracle; distinct = distinct op lists; non-trivial = at least one multi-parent node",
+        "assumptions": ["acyclicity is a hypothesis (a rank function bounded by #terms+2); cyclic input makes the real code overflow its stack and is outside the property's quantifier",
+                        "obo and sub_ontology construction paths are covered by the C09 / C14 checks, which compare the same dump"],
+    },
 }
